@@ -104,6 +104,21 @@ def run(tier, seed):
             if len(samples) < 3:
                 tr0 = V.split_traces(es)[0][1]
                 samples.append({"model": name, "prog": pn, "schedule": [[e["th"], e["lb"]] for e in tr0 if e["a"] == "step"], "rets": tr0[-1].get("rets")})
+    # ---- 3. really concurrent commits (no controller): the window between validation and publication of commit() has no
+    # yield point, so it is exercised with real threads; FcwHistory.tla decides from the returned epochs only
+    rounds = 500 if tier == "quick" else 8000
+    sp = os.path.join(wd, "stress.ndjson")
+    V.gv(["txstress", "--threads", 4, "--rounds", rounds, "--out", sp], timeout=1800)
+    fcfg = V.write_cfg(os.path.join(wd, "fcw.cfg"), postcondition="Accepted")
+    res = V.validate_trace(os.path.join(V.SPEC, "txn", "FcwHistory.tla"), fcfg, sp, name="C20-stress")
+    if not res["accepted"]:
+        rnd = V.read_ndjson(sp)[res["index"] - 1]
+        rep.violation(f"4 threads committing concurrently: round {res['index']} returned {json.dumps(rnd['txs'])}: no sequential order of these commits "
+                      "explains two overlapping committed writers of one entity / duplicate commit epochs (FcwHistory.tla)",
+                      {"model": "stress", "round": rnd}, tag="stress")
+    else:
+        tot_ev += rounds
+    rep.add(concurrent_commit_rounds=rounds)
     rep.add(states=states + tot_ev, transitions=trans + tot_ev, model_checking=mcs, traces_validated_against_impl=tot_runs,
             events_validated=tot_ev, evaluations=tot_runs, distinct_nontrivial=nontriv,
             rule="distinct schedules per program (systematic enumeration of the controller's choice tree + seeded random + TLC counterexample schedules); "
@@ -118,6 +133,11 @@ def run(tier, seed):
 def replay(path):
     obj = json.load(open(path))
     r = obj["replay"]
+    if r.get("model") == "stress":
+        print(json.dumps(r["round"]))
+        print("uncontrolled thread schedule: re-run `bin/check C20` to repeat the stress; the recorded round above violates FcwHistory.tla")
+        print(f"VIOLATION property=C20 replay={path}")
+        return 1
     wd = V.workdir("replay-conc")
     pp = os.path.join(wd, "p.ndjson")
     V.write_ndjson(pp, [{"name": r["name"], "prog": r["prog"], "schedules": [r["schedule"]]}])
